@@ -63,10 +63,7 @@ ASSUMPTIONS = ["object graphs are acyclic (an individual does not contain itself
                "CLASS: original and clone share them by design (same class object); the statement's 'attributes' are "
                "read as attributes of the individual (DESIGN section 6); after unpickling the re-created class carries "
                "an equal copy (checked as class equivalence)",
-               "numpy individuals of dtype=object are outside the statement's premise as checked here: "
-               "_numpy_array.__deepcopy__ copies the buffer with numpy.ndarray.copy, which is shallow for object "
-               "arrays, so mutable ELEMENTS are shared between original and clone (candidate finding, reported; "
-               "exercised in the model-vs-implementation stream only, where the model predicts the sharing)",
+"numpy individuals of dtype=object hold dicts / scalars (numpy cannot build a 1-D object array from ragged sequences)",
                "per-instance attributes named in creator.create are still present on the object (not deleted); "
                "deleted ones are exercised in the model-vs-implementation stream only",
                "attributes hung on a Fitness object other than its declared state are outside the statement "
@@ -399,7 +396,10 @@ def atom_key(o):
 
 
 def nd_header(a):
-    return ["nd", a.dtype.str if a.size else "empty", list(a.shape)]
+    """dtype is content for non-empty arrays; for string dtypes only the kind (the item WIDTH is storage: numpy
+    re-derives it from the longest element when the array is rebuilt from its elements)."""
+    dt = a.dtype.kind if a.dtype.kind in "US" else a.dtype.str
+    return ["nd", dt if a.size else "empty", list(a.shape)]
 
 
 def canon(o, depth=0):
@@ -569,7 +569,9 @@ def mutate_all(o):
         elif isinstance(x, numpy.ndarray):
             if x.size:
                 flat = x.reshape(-1)
-                flat[0] = (not flat[0]) if x.dtype == bool else flat[0] + 1
+                kd = x.dtype.kind
+                flat[0] = ("MUT" if kd == "O" else (not flat[0]) if kd == "b" else
+                           ("~" if flat[0] != "~" else "!") if kd in "US" else flat[0] + 1)
                 n += 1
         if hasattr(x, "__dict__") and not isinstance(x, base.Fitness):
             for k in list(vars(x)):
@@ -838,7 +840,7 @@ def check_copy(kind, x, c, canon0, sig0, require_same_class):
 
 def eval_obj(d):
     uid = next_uid()
-    premise = not (d.get("del") or d.get("fitextra") or d["base"] == "ndarray:object")
+    premise = not (d.get("del") or d.get("fitextra"))
     try:
         with warnings.catch_warnings():
             warnings.simplefilter("ignore")
@@ -1028,7 +1030,7 @@ def eval_fresh(d):
             canon0, sig0, csig = canon(x), alias_sig(x), class_sig(type(x))
             for pr in sorted(ans, key=int):
                 a = ans[pr]
-                premise = not (sub.get("del") or sub.get("fitextra") or sub["base"] == "ndarray:object")
+                premise = not (sub.get("del") or sub.get("fitextra"))
                 msg = None
                 if "error" in a:
                     msg = "fresh interpreter, protocol %s: %s" % (pr, a["error"])
@@ -1105,30 +1107,42 @@ def eval_tb(d):
     tb = base.Toolbox()
     kw = [("k%d" % k, v) for k, v in d["kw"]]
     ckw = [("k%d" % k, v) for k, v in d["ckw"]]
-    tb.register("op", record_fn, *d["args"], **dict(kw))
+    inner = d.get("inner")
+    fn, iargs, ikw = record_fn, [], []
+    if inner:                    # the registered function is itself an alias of this toolbox / a functools.partial
+        iargs, ikw = list(inner["args"]), [("k%d" % k, v) for k, v in inner["kw"]]
+        if inner["via"] == "alias":
+            tb.register("inner", record_fn, *iargs, **dict(ikw))
+            fn = tb.inner
+        else:
+            import functools
+            fn = functools.partial(record_fn, *iargs, **dict(ikw))
+    tb.register("op", fn, *d["args"], **dict(kw))
     orc = None
     und = tb.op
     if d["ndec"]:
         tb.decorate("op", *[make_decorator(i + 1) for i in range(d["ndec"])])
     got = tb.op(*d["cargs"], **dict(ckw))
-    merged = dict(kw)
+    merged = dict(ikw)           # keywords bound inside the registered partial lose against those frozen by register,
+    merged.update(dict(kw))      # which lose against the call's own
     merged.update(dict(ckw))
-    if got[0] != list(d["args"]) + list(d["cargs"]):
-        orc = "positional arguments %r are not frozen %r followed by the call's %r" % (got[0], d["args"], d["cargs"])
+    if got[0] != iargs + list(d["args"]) + list(d["cargs"]):
+        orc = "positional arguments %r are not frozen %r followed by the call's %r" % (got[0], iargs + list(d["args"]),
+                                                                                     d["cargs"])
     elif dict(got[1]) != merged:
         orc = "keyword arguments %r are not the frozen ones overridden by the call's (%r)" % (got[1], merged)
     elif got[3] != list(range(1, d["ndec"] + 1)):
         orc = "decorators applied as %r" % (got[3],)
-    elif tb.op.__name__ != "op":
+    elif not inner and tb.op.__name__ != "op":      # (an alias of an alias inherits the inner __dict__, incl. its name)
         orc = "alias lost its name"
-    elif tb.op.args != tuple(d["args"]) or tb.op.keywords != dict(kw):
+    elif not inner and (tb.op.args != tuple(d["args"]) or tb.op.keywords != dict(kw)):
         orc = "decoration changed the frozen arguments"
     if orc is None:
         for p in PROTOCOLS:
             try:
                 f = pickle.loads(pickle.dumps(und, p))
                 r = f(*d["cargs"], **dict(ckw))
-                if r[:3] != got[:3] or f.__name__ != "op":
+                if r[:3] != got[:3] or (not inner and f.__name__ != "op"):
                     orc = "unpickled alias (protocol %d) answers %r" % (p, r)
             except Exception as e:  # noqa
                 orc = "undecorated alias not picklable with protocol %d: %s: %s" % (p, type(e).__name__, e)
@@ -1145,9 +1159,11 @@ def eval_tb(d):
 
     def skw(l):
         return ",".join("%d=%d" % (k, v) for k, v in l) or "-"
-    line = "C16 tb %s %s %d %s %s" % (",".join(map(str, d["args"])) or "-", skw(d["kw"]), d["ndec"],
-                                      ",".join(map(str, d["cargs"])) or "-", skw(d["ckw"]))
-    return Case(d, [line], [out], orc, tag="tb/dec=%d/override=%s" % (d["ndec"], bool(set(k for k, _ in d["kw"]) &
+    flat_kw = dict((k, v) for k, v in (inner["kw"] if inner else []))
+    flat_kw.update(dict((k, v) for k, v in d["kw"]))          # the model line is the FLATTENED registration
+    line = "C16 tb %s %s %d %s %s" % (",".join(map(str, iargs + list(d["args"]))) or "-", skw(list(flat_kw.items())),
+                                      d["ndec"], ",".join(map(str, d["cargs"])) or "-", skw(d["ckw"]))
+    return Case(d, [line], [out], orc, tag="tb%s/dec=%d/override=%s" % (("-" + inner["via"]) if inner else "", d["ndec"], bool(set(k for k, _ in d["kw"]) &
                                                                                     set(k for k, _ in d["ckw"]))),
                 nontrivial=bool(d["args"] or d["kw"] or d["cargs"] or d["ckw"]))
 
@@ -1425,12 +1441,14 @@ def structured(rng, thorough):
                 d["content"] = nested_content(b, rng)
                 d["aux"] = sorted(set(d.get("aux", []) + ["tree", "list"]))
                 out.append(d)
-    # object-dtype numpy individuals (off-premise: numpy.ndarray.copy is shallow for them; model vs implementation only)
-    for cfg in (CONFIGS[1], CONFIGS[3]):
-        d = obj_case("list", 0, cfg, 1, True, rng)
-        d["base"] = "ndarray:object"
-        d["content"] = [["D", ["gene", 1]], ["D", ["gene", ["L", 2, 3]]], ["D"]]
-        out.append(d)
+    # object-dtype numpy individuals: the elements are mutable objects that a clone must not share (F29)
+    for cfg in (CONFIGS[0], CONFIGS[1], CONFIGS[3], CONFIGS[7]):
+        for content in ([["D", ["gene", 1]], ["D", ["gene", ["L", 2, 3]]], ["D"]], [["D", ["a", ["D", ["b", ["L"]]]]]],
+                        [["D", ["g", 1]], 4, "s"]):
+            d = obj_case("list", 0, cfg, rng.randint(1, 2), rng.random() < 0.6, rng, chain=rng.choice([1, 2]))
+            d["base"] = "ndarray:object"
+            d["content"] = content
+            out.append(d)
     # constrained fitness: also a VALID one that still carries its record
     for b in BASES:
         out.append(obj_case(b, 2, CONFIGS[1], 2, True, rng, cfit=True, cv=[False, False]))
@@ -1462,9 +1480,14 @@ def tb_case(rng):
     ks = [1, 2, 3, 4]
     kw = [[k, rng.randint(-5, 5)] for k in rng.sample(ks, rng.randint(0, 3))]
     ckw = [[k, rng.randint(-5, 5)] for k in rng.sample(ks, rng.randint(0, 3))]
-    return {"k": "tb", "args": [rng.randint(-9, 9) for _ in range(rng.randint(0, 3))], "kw": kw,
-            "ndec": rng.choice([0, 0, 1, 2, 3]), "cargs": [rng.randint(-9, 9) for _ in range(rng.randint(0, 3))],
-            "ckw": ckw}
+    d = {"k": "tb", "args": [rng.randint(-9, 9) for _ in range(rng.randint(0, 3))], "kw": kw,
+         "ndec": rng.choice([0, 0, 1, 2, 3]), "cargs": [rng.randint(-9, 9) for _ in range(rng.randint(0, 3))],
+         "ckw": ckw}
+    if rng.random() < 0.5:       # register an alias / a partial, with keywords clashing with the outer ones
+        ik = sorted(set([k for k, _ in kw][:2] + rng.sample(ks, rng.randint(1, 2))))
+        d["inner"] = {"via": rng.choice(["alias", "partial"]), "args": [rng.randint(-9, 9) for _ in range(rng.randint(0, 2))],
+                      "kw": [[k, rng.randint(10, 20)] for k in ik]}
+    return d
 
 
 def generate(tier, rng, mult):
